@@ -117,6 +117,12 @@ func c17R6(c *Ctx, r *Report) {
 		return false
 	})
 	if genMax == 0 || genMin == 1<<40 {
+		// the limits in a table built once: size, ok := table[k.Algorithm]; bits < size.min || bits > size.max
+		if lo, hi, ok := c.rsaLimitsFromTable(gen, bitsP); ok {
+			genMin, genMax = lo, hi
+		}
+	}
+	if genMax == 0 || genMin == 1<<40 {
 		r.undecided("C17.R6.rsa-limits", "DNSKEY.publicKeyRSA", c.pos(gen.Pos()), "cannot read the RSA size limits of Generate")
 		return
 	}
@@ -1175,4 +1181,156 @@ func hashFoldASCII(c *Ctx, r *Report, rule string) {
 	if n == 0 {
 		r.undecided(rule, "NSEC3.Cover/Match", "", "no case mapping of a hash label found")
 	}
+}
+
+// rsaLimitsFromTable: Generate tests bits against the two fields of an entry of a package-level map literal keyed by
+// algorithm; the smallest lower limit and the largest upper limit among the entries whose key is an RSA* constant.
+func (c *Ctx) rsaLimitsFromTable(gen *ast.FuncDecl, bitsP types.Object) (lo, hi int64, ok bool) {
+	// size, ok := table[...]
+	var tbl types.Object
+	var entry types.Object
+	ast.Inspect(gen.Body, func(n ast.Node) bool {
+		as, isAs := n.(*ast.AssignStmt)
+		if !isAs || as.Tok != token.DEFINE || len(as.Rhs) != 1 || len(as.Lhs) == 0 {
+			return true
+		}
+		ix, isIx := ast.Unparen(as.Rhs[0]).(*ast.IndexExpr)
+		if !isIx {
+			return true
+		}
+		id, isId := ast.Unparen(ix.X).(*ast.Ident)
+		lid, isL := as.Lhs[0].(*ast.Ident)
+		if !isId || !isL {
+			return true
+		}
+		if v, isVar := c.Info.Uses[id].(*types.Var); isVar && v.Parent() == c.Types.Scope() {
+			if _, isMap := v.Type().Underlying().(*types.Map); isMap {
+				tbl, entry = v, c.Info.Defs[lid]
+			}
+		}
+		return true
+	})
+	if tbl == nil || entry == nil {
+		return 0, 0, false
+	}
+	// which field is the lower limit, which the upper
+	var loField, hiField string
+	ast.Inspect(gen.Body, func(n ast.Node) bool {
+		be, isBe := n.(*ast.BinaryExpr)
+		if !isBe || !c.isIdentOf(be.X, bitsP) {
+			return true
+		}
+		sel, isSel := ast.Unparen(be.Y).(*ast.SelectorExpr)
+		if !isSel || !c.isIdentOf(sel.X, entry) {
+			return true
+		}
+		switch be.Op {
+		case token.LSS:
+			loField = sel.Sel.Name
+		case token.GTR:
+			hiField = sel.Sel.Name
+		}
+		return true
+	})
+	if loField == "" || hiField == "" {
+		return 0, 0, false
+	}
+	// the literal
+	var lit *ast.CompositeLit
+	for _, f := range c.Dns.Syntax {
+		for _, d := range f.Decls {
+			gd, isGd := d.(*ast.GenDecl)
+			if !isGd {
+				continue
+			}
+			for _, sp := range gd.Specs {
+				vs, isVs := sp.(*ast.ValueSpec)
+				if !isVs {
+					continue
+				}
+				for i, nm := range vs.Names {
+					if c.Info.Defs[nm] == tbl && i < len(vs.Values) {
+						lit, _ = ast.Unparen(vs.Values[i]).(*ast.CompositeLit)
+					}
+				}
+			}
+		}
+	}
+	if lit == nil {
+		return 0, 0, false
+	}
+	// nothing else writes the table
+	written := false
+	for _, f := range c.Dns.Syntax {
+		ast.Inspect(f, func(n ast.Node) bool {
+			switch t := n.(type) {
+			case *ast.AssignStmt:
+				for _, l := range t.Lhs {
+					x := ast.Unparen(l)
+					if ix, isIx := x.(*ast.IndexExpr); isIx {
+						x = ast.Unparen(ix.X)
+					}
+					if c.isIdentOf(x, tbl) {
+						written = true
+					}
+				}
+			case *ast.CallExpr:
+				if id, isId := ast.Unparen(t.Fun).(*ast.Ident); isId && (id.Name == "delete" || id.Name == "clear") && len(t.Args) > 0 && c.isIdentOf(t.Args[0], tbl) {
+					written = true
+				}
+			case *ast.UnaryExpr:
+				if t.Op == token.AND && c.isIdentOf(t.X, tbl) {
+					written = true
+				}
+			}
+			return true
+		})
+	}
+	if written {
+		return 0, 0, false
+	}
+	mt := tbl.Type().Underlying().(*types.Map)
+	st, isStruct := mt.Elem().Underlying().(*types.Struct)
+	if !isStruct {
+		return 0, 0, false
+	}
+	lo, hi = 1<<40, 0
+	for _, el := range lit.Elts {
+		kv, isKV := el.(*ast.KeyValueExpr)
+		if !isKV || !strings.HasPrefix(types.ExprString(kv.Key), "RSA") {
+			continue
+		}
+		cl, isCL := ast.Unparen(kv.Value).(*ast.CompositeLit)
+		if !isCL {
+			return 0, 0, false
+		}
+		vals := map[string]int64{}
+		for i, fe := range cl.Elts {
+			name, val := "", fe
+			if fkv, isF := fe.(*ast.KeyValueExpr); isF {
+				name, val = identName(fkv.Key), fkv.Value
+			} else if i < st.NumFields() {
+				name = st.Field(i).Name()
+			}
+			if k, isK := c.exprConst(val); isK {
+				vals[name] = k
+			}
+		}
+		l, okL := vals[loField]
+		h, okH := vals[hiField]
+		if !okL || !okH {
+			return 0, 0, false
+		}
+		if l < lo {
+			lo = l
+		}
+		if h > hi {
+			hi = h
+		}
+	}
+	if hi == 0 || lo == 1<<40 {
+		return 0, 0, false
+	}
+	// the rule reads limits as "bits < lo refused, bits > hi refused": the same convention as the switch form
+	return lo, hi, true
 }
